@@ -54,7 +54,8 @@ def cases(draw):
     if point == "open-handling-base-request":
         return {"role": role, "point": point, "cause": cause, "sched": [], "lines": False, "n_queued": draw(st.integers(1, 4)), "holds": None,
                 "n_line": draw(st.integers(1, 400))}
-    return {"role": role, "point": point, "cause": cause, "sched": sched, "lines": draw(st.booleans()) if sched else False,
+    return {"after_dpa": draw(st.sampled_from([None, None, "dwr", "app"])) if cause == "local-close" else None,
+            "role": role, "point": point, "cause": cause, "sched": sched, "lines": draw(st.booleans()) if sched else False,
             "n_queued": draw(st.integers(1, 4)), "holds": draw(conc.holds(bias="two-consumers" if point == "open-two-consumers" else None))}
 
 
@@ -183,6 +184,13 @@ def run_one(case):
                 if dprs:
                     answered_dpr[0] = True
                     w.feed(peer_dpa(dprs[0]["hbh"], dprs[0]["e2e"]))
+                    answered_dpr.append(w.sched.now)
+            if case.get("after_dpa") and len(answered_dpr) == 2 and w.sched.now > answered_dpr[1] + 0.5:
+                # one more message of the peer that was already on its way arrives half a second after its DPA
+                answered_dpr.append("sent")
+                if sock is not None and not sock.closed:
+                    from ..world import peer_dwr
+                    w.feed(peer_dwr(0x0D0D0D77, 0x0E0E0E77) if case["after_dpa"] == "dwr" else app_request(3900, 4900, dest_realm=LOCAL["realm"]), sock=sock)
             return False
 
         def ended():
@@ -276,6 +284,8 @@ def _collect(shard, seed, n):
             if conc.wants_line_holds(case.get("holds")):
                 f.add("delay-between-source-lines")
         nt = not (case["point"] == "open-idle" and case["cause"] == "local-close")
+        if case.get("after_dpa"):
+            f.add("peer-sends-one-more-message-after-its-dpa")
         col.record(case, vs, nontrivial=nt, classes=sorted(f))
 
     common.hyp_collect(cases(), body, n, seed)
@@ -331,7 +341,7 @@ def main(ctx):
     col.extra["rendezvous_sweep"] = f"{len(jobs)} scenarios x {nmax}x6 (n1, n2) pairs"
     for path, rec in common.load_replays(PID):
         col.record(rec["case"], run_case(rec["case"]), nontrivial=True, classes=["replay"])
-    ctx.required_classes = ["prefix-with-switch", "role=client", "role=server"] + ["point=" + p for p in set(CLIENT) | set(SERVER)] + \
+    ctx.required_classes = ["peer-sends-one-more-message-after-its-dpa", "prefix-with-switch", "role=client", "role=server"] + ["point=" + p for p in set(CLIENT) | set(SERVER)] + \
                            ["cause=" + c for c in ("local-close", "peer-dpr", "peer-fin", "peer-rst", "refused", "peer-timeout", "host-unreachable", "peer-dpr-busy")]
     ctx.assumptions = ["controlled world; 'terminates' is judged within 30 virtual seconds of the cause under fair completion",
                        "a conformant peer answers the node's DPR with a DPA for cause=local-close; for life point 'closing' the peer "
